@@ -1,3 +1,4 @@
 -- Root of the `SigpyVerif` library: imports every property module (and through them the models,
 -- generated definitions and lemmas).
 import SigpyVerif.Props.C09
+import SigpyVerif.Props.C05
